@@ -19,6 +19,16 @@ Clean == {"ok", "ValueError", "NotImplementedError", "ImportError"}
 O(r, m) == r.out[CHOOSE i \in 1..4 : Methods[i] = m]
 Same(a, b) == a.vals = b.vals
 
+\* which model-level predictions differ, per method: <<method index, "kind" | "plan" | "engine" | "rb">>
+DriftSet(r) ==
+  IF ~r.hascfg THEN {}
+  ELSE UNION {LET o == Outcome([r.cfg EXCEPT !.method = Methods[i]]) IN
+              (IF o.kind # r.out[i].kind THEN {<<i, "kind">>} ELSE {})
+              \cup (IF o.kind = "ok" /\ o.kind = r.out[i].kind /\ r.out[i].plan \notin {"-", o.method} THEN {<<i, "plan">>} ELSE {})
+              \cup (IF o.kind = "ok" /\ o.kind = r.out[i].kind /\ r.out[i].engine # "-" /\ r.out[i].engine # ChooseEngine(r.cfg, r.nanskip, r.sortedlabels, r.boolfamily) THEN {<<i, "engine">>} ELSE {})
+              \cup (IF o.kind = "ok" /\ o.kind = r.out[i].kind /\ r.out[i].rb # "-" /\ o.method # "eager" /\ (r.out[i].rb = "T") # o.rb THEN {<<i, "rb">>} ELSE {})
+              : i \in {j \in 1..4 : ~(j = 4 /\ r.skipbw)}}
+
 Bad(r) ==
   LET clean == \A i \in 1..4 : r.out[i].kind \in Clean
       mr == O(r, "map-reduce")
@@ -26,19 +36,14 @@ Bad(r) ==
       expl == /\ (mr.kind = "ok" /\ O(r, "cohorts").kind = "ok") => Same(O(r, "cohorts"), mr)
               /\ (mr.kind = "ok" /\ O(r, "blockwise").kind = "ok" /\ r.confined) => Same(O(r, "blockwise"), mr)
       \* the plan recorded by the FLOX_VERIF hook ("plan" event) against the strategy the model resolves
-      drift == \E i \in 1..4 : r.hascfg /\ ~(i = 4 /\ r.skipbw) /\
-                 LET o == Outcome([r.cfg EXCEPT !.method = Methods[i]]) IN
-                 \/ o.kind # r.out[i].kind
-                 \/ (o.kind = "ok" /\ r.out[i].plan \notin {"-", o.method})
-                 \/ (o.kind = "ok" /\ r.out[i].engine # "-" /\ r.out[i].engine # ChooseEngine(r.cfg, r.nanskip, r.sortedlabels, r.boolfamily))
-                 \/ (o.kind = "ok" /\ r.out[i].rb # "-" /\ o.method # "eager" /\ (r.out[i].rb = "T") # o.rb)
+      drift == DriftSet(r) # {}
   IN (IF clean THEN {} ELSE {"clean"}) \cup (IF auto THEN {} ELSE {"auto"}) \cup (IF expl THEN {} ELSE {"explicit"})
      \cup (IF drift THEN {"drift"} ELSE {})
 
 Init == l = 1
 Next == /\ l <= Len(TraceLog)
         /\ LET r == TraceLog[l] IN IF Bad(r) = {} THEN TRUE
-           ELSE PrintT(<<"FAIL", r.id, Bad(r), [i \in 1..4 |-> IF r.hascfg THEN Outcome([r.cfg EXCEPT !.method = Methods[i]]).kind ELSE "-"]>>)
+           ELSE PrintT(<<"FAIL", r.id, Bad(r), [i \in 1..4 |-> IF r.hascfg THEN Outcome([r.cfg EXCEPT !.method = Methods[i]]).kind ELSE "-"], DriftSet(r)>>)
         /\ l' = l + 1
 Spec == Init /\ [][Next]_l
 TraceAccepted == TLCGet("stats").diameter = Len(TraceLog) + 1
